@@ -205,6 +205,65 @@ Theorem C16_alias_free_refuted_if_cmdline_cached :
 Proof. exact alias_free_refuted_if_cmdline_cached. Qed.
 Print Assumptions C16_alias_free_refuted_if_cmdline_cached.
 
+(* ---- copies of a Process object (copy.copy / copy.deepcopy / pickle), several objects (Model.mstep) *)
+
+(* block transparency for copies: every history over any number of objects whose copies start with no cache
+   pointer they did not create (clean: no front-level pointer kept; platform object shared, or own without the
+   platform-level pointer) -- whenever no object referring to a platform object is inside a block, every object
+   on it has no front-level dict, the platform object has none, and a call reads the kernel as it is now *)
+Theorem C16_copies_transparent : forall f h o ob m,
+  Forall clean h ->
+  let ms := mrun f h in
+  nth_error (m_objs ms) o = Some (Some ob) -> quiet ms (o_plat ob) -> m <> Mppid ->
+  fptr (view ms ob) = None /\ pptr (view ms ob) = None /\
+  exists cn, sq_call m (view ms ob) = (view ms ob, cn, direct m (view ms ob)) /\ cn (m_src m) = 1.
+Proof. exact copies_transparent. Qed.
+Print Assumptions C16_copies_transparent.
+
+(* sharing the platform object is harmless in that sense; keeping a pointer is not: the default shallow copy
+   (the tree before commit 16d17e9; keeps the front-level _cache) taken inside a block answers ppid() from the dead block after the kernel changed *)
+Theorem C16_copies_transparent_shallow_refuted :
+  let ms := mrun (fun _ => SAvail 1) h_shallow in
+  all_out ms = true /\ srcs (m_sh ms) Stat = SAvail 2 /\ last_answer_is ms (Val 1) = true.
+Proof. exact copies_transparent_shallow_refuted. Qed.
+Print Assumptions C16_copies_transparent_shallow_refuted.
+
+(* ... and so would a deep copy that carried the platform-level cache along *)
+Theorem C16_copies_transparent_deep_refuted :
+  let ms := mrun (fun _ => SAvail 1) h_deep in
+  all_out ms = true /\ srcs (m_sh ms) Stat = SAvail 2 /\ last_answer_is ms (Val 1) = true.
+Proof. exact copies_transparent_deep_refuted. Qed.
+Print Assumptions C16_copies_transparent_deep_refuted.
+
+(* the tree under test (copy_table is probed from it on every run): if all the copies it supports are clean, its
+   histories are transparent *)
+Theorem C16_copies_transparent_tree : tree_clean = true ->
+  forall f h o ob m, Forall tree_op h ->
+  let ms := mrun f h in
+  nth_error (m_objs ms) o = Some (Some ob) -> quiet ms (o_plat ob) -> m <> Mppid ->
+  fptr (view ms ob) = None /\ pptr (view ms ob) = None /\
+  exists cn, sq_call m (view ms ob) = (view ms ob, cn, direct m (view ms ob)) /\ cn (m_src m) = 1.
+Proof. exact copies_transparent_tree. Qed.
+Print Assumptions C16_copies_transparent_tree.
+
+(* ... and they are (tree of record, after commit 16d17e9): block transparency for the copies of this tree *)
+Theorem C16_copies_transparent_now : forall f h o ob m, Forall tree_op h ->
+  let ms := mrun f h in
+  nth_error (m_objs ms) o = Some (Some ob) -> quiet ms (o_plat ob) -> m <> Mppid ->
+  fptr (view ms ob) = None /\ pptr (view ms ob) = None /\
+  exists cn, sq_call m (view ms ob) = (view ms ob, cn, direct m (view ms ob)) /\ cn (m_src m) = 1.
+Proof. exact copies_transparent_now. Qed.
+Print Assumptions C16_copies_transparent_now.
+
+(* the copy protocol of the tree of record (entries: copy, deepcopy, pickle, each inside / outside a block): deepcopy
+   and pickle raise (no object is created), copy.copy is a shallow copy sharing the platform object; any other
+   protocol breaks this obligation *)
+Theorem C16_copy_table_shape :
+  (forall i, 2 <= i < 6 -> nth i copy_table None = None) /\
+  exists sh kf, nth 0 copy_table None = Some (sh, kf, false) /\ nth 1 copy_table None = Some (sh, false, false).
+Proof. exact copy_table_shape. Qed.
+Print Assumptions C16_copy_table_shape.
+
 (* ---- threads: every interleaving (any schedule, any length), any number of threads, any programs *)
 
 (* 5. no AttributeError / KeyError of the cache plumbing ever reaches a caller *)
